@@ -19,6 +19,7 @@ type e1Case struct {
 	Ty    *Ty
 	Roles []string
 	Extra string // extra source (declarations) for this case
+	After string // the same, placed behind the table of cases (later in source order)
 	// for non-type-driven cases (C13..C18) the registration is given verbatim
 	Funcs    map[string]string // role -> Go func literal source
 	Zero     string            // Go expression of (*T)(nil)
@@ -133,6 +134,8 @@ func scenarioFiles(cases []*e1Case, harnessExtra string) map[string]string {
 	files["ext2/ext/ext.go"] = ext2Src
 	files["geo/v2/geo.go"] = geoSrc
 	files["same/p/p.go"] = sameSrc
+	// an external test package shares the directory (and derived.gen.go's path) with package p
+	files["p/ext_test.go"] = "package p_test\n\nvar Sink = 1\n"
 	decls := map[string]string{}
 	var sb strings.Builder
 	for _, c := range cases {
@@ -195,6 +198,11 @@ func scenarioFiles(cases []*e1Case, harnessExtra string) map[string]string {
 		cb.WriteString("}},\n")
 	}
 	cb.WriteString("}\n")
+	for _, c := range cases {
+		if c.After != "" {
+			cb.WriteString("\n" + c.After + "\n")
+		}
+	}
 	files["p/cases.go"] = "package p\n\n" + importsFor(cb.String()) + cb.String()
 
 	var tb strings.Builder
